@@ -389,6 +389,19 @@ def Op.isParamMut : Op → Bool
   | .editParam _ _ => true
   | _ => false
 
+/-! ## Statistics and histograms read masks through `to_mask` -/
+
+/-- The elements of `vals` selected by the mask (row-major). -/
+def maskedVals (vals : List Int) (m : Mask) : List Int :=
+  ((vals.zip m.bits).filter (·.2)).map (·.1)
+
+/-- `compute_statistic('sum', …, subset_state=…)` on exact integer data. -/
+def maskedSum (vals : List Int) (m : Mask) : Int := (maskedVals vals m).foldl (· + ·) 0
+
+/-- `compute_histogram` with `nb` unit bins centred on `0 … nb-1` on exact integer data. -/
+def maskedHist (vals : List Int) (nb : Nat) (m : Mask) : List Nat :=
+  (List.range nb).map fun (k : Nat) => ((maskedVals vals m).filter (fun x => x == Int.ofNat k)).length
+
 /-! ## Generic keyed caches (flood fill, histogram layer, attribute helpers) -/
 
 /-- A single-slot cache as `FloodFillSubsetState._mask_cache` / `HistogramLayerState._histogram_cache`:
